@@ -4,6 +4,7 @@
 //!   vh stdlibx replay <cases.ndjson> <obs.ndjson> <summary.json> <scratch>
 //!   vh stdlibx random <table.ndjson> <n> <obs.ndjson> <summary.json> <scratch>
 //!   vh stdlibx stdin  <stdin_cases.ndjson> <id> <obs.ndjson> <summary.json>   (stdin supplied by the caller)
+//!   vh stdlibx fswalk <scratch> <events.ndjson> <summary.json> <walks> <length>     (judged by Trace_Fs.tla)
 //!   vh stdlibx fs     <dir with fs_*.ndjson> <scratch> <obs.ndjson> <summary.json> <depth> <sample3> <ro:skip|only|all>
 //!
 //! Every call of the code under test is wrapped in `catch`; what happened is written as an
@@ -874,6 +875,87 @@ fn fs_mode(dir: &str, scratch: &str, obs_path: &str, summary: &str, depth: usize
     json!({"done": "fs"})
 }
 
+// ------------------------------------------------------------------ random walks over the file system (impl -> spec)
+
+fn with_pa(tree: Vec<Value>) -> Value {
+    Value::Array(tree.into_iter().map(|mut it| {
+        let pa: Vec<String> = it["p"].as_str().unwrap().split('/').map(str::to_string).collect();
+        it["pa"] = json!(pa);
+        it
+    }).collect())
+}
+
+fn fswalk(scratch: &str, out_path: &str, summary: &str, nwalks: usize, len: usize) -> Value {
+    fs::create_dir_all(scratch).unwrap();
+    let root = PathBuf::from(scratch).join("tree");
+    let _ = fs::create_dir_all(&root);
+    std::env::set_current_dir(scratch).unwrap();
+    let lib = Lib::new();
+    let mut rng = Rng::from_env(0xF5A);
+    const PATHS: &[&[&str]] = &[&["p"], &["q"], &["d"], &["p", "x"], &["q", "x"], &["d", "x"], &["d", "x", "x"], &["p", "x", "x"]];
+    const FNS: &[&str] = &["file_read_to_string", "write_to_file", "copy_file", "remove_file", "remove_dir", "remove_dir_all",
+        "create_dir", "create_dir_all", "rename", "rename", "create_dir", "write_to_file"];
+    let mut events = vec![];
+    let (mut calls, mut oks, mut unexpected) = (0u64, 0u64, 0u64);
+    for run in 0..nwalks {
+        // a random writable initial tree
+        let mut flat = vec![];
+        for name in ["d", "p", "q"] {
+            match rng.below(5) {
+                0 => {}
+                1 => flat.push(json!({"p": name, "k": "file", "c": *rng.pick(&["a", "b", BAD_UTF8]), "ro": false})),
+                2 => flat.push(json!({"p": name, "k": "dir", "c": "", "ro": false})),
+                3 => {
+                    flat.push(json!({"p": name, "k": "dir", "c": "", "ro": false}));
+                    flat.push(json!({"p": format!("{name}/x"), "k": "file", "c": "c", "ro": false}));
+                }
+                _ => {
+                    flat.push(json!({"p": name, "k": "dir", "c": "", "ro": false}));
+                    flat.push(json!({"p": format!("{name}/x"), "k": "dir", "c": "", "ro": false}));
+                }
+            }
+        }
+        setup(&root, &Value::Array(flat));
+        let mut tree = vec![];
+        walk(&root, "", &mut tree);
+        events.push(json!({"ev": "init", "run": run, "tree": with_pa(tree)}));
+        for step in 0..len {
+            let f = *rng.pick(FNS);
+            let p = *rng.pick(PATHS);
+            let two = f == "copy_file" || f == "rename";
+            let mut q: &[&str] = if two { *rng.pick(PATHS) } else { &[] };
+            if f == "copy_file" && q == p {
+                q = if p == ["q"] { &["p"] } else { &["q"] };
+            }
+            let abs = |pa: &[&str]| root.join(pa.join("/")).to_string_lossy().into_owned();
+            let mut args = vec![str_w(&abs(p).chars().map(|c| c as u32).collect::<Vec<_>>())];
+            if two { args.push(str_w(&abs(q).chars().map(|c| c as u32).collect::<Vec<_>>())); }
+            let c = if f == "write_to_file" { "w" } else { "" };
+            if f == "write_to_file" { args.push(str_w(&[119])); }
+            let name = format!("std.fs.{f}");
+            let out = if (run + step) % 2 == 0 { lib.call_prog(&name, &args, false).0 } else { lib.call_host(&name, &args, false) };
+            calls += 1;
+            let ret = if k(&out) != "value" { unexpected += 1; format!("!{}", k(&out)) } else {
+                match k(&out["v"]) {
+                    "void" => { oks += 1; "void".to_string() }
+                    "string" => { oks += 1; cps_string(&out["v"]) }
+                    "struct" => "err".to_string(),
+                    other => { unexpected += 1; format!("!{other}") }
+                }
+            };
+            let mut tree = vec![];
+            walk(&root, "", &mut tree);
+            events.push(json!({"ev": "call", "run": run, "f": f, "p": p, "q": q, "c": c, "ret": ret, "tree": with_pa(tree),
+                "route": if (run + step) % 2 == 0 { "prog" } else { "host" }, "raw": out}));
+        }
+    }
+    wipe(&root);
+    let _ = fs::remove_dir_all(&root);
+    write_lines(out_path, &events);
+    write_json(summary, &json!({"walks": nwalks, "calls": calls, "successful_calls": oks, "unexpected_outcomes": unexpected, "events": events.len()}));
+    json!({"done": "fswalk"})
+}
+
 // ------------------------------------------------------------------ entry
 
 pub fn run(args: &[String]) -> Value {
@@ -883,6 +965,7 @@ pub fn run(args: &[String]) -> Value {
         Some("replay") => replay(&a(1), &a(2), &a(3), &a(4)),
         Some("random") => random(&a(1), a(2).parse().unwrap(), &a(3), &a(4), &a(5)),
         Some("stdin") => stdin_mode(&a(1), a(2).parse().unwrap(), &a(3), &a(4)),
+        Some("fswalk") => fswalk(&a(1), &a(2), &a(3), a(4).parse().unwrap(), a(5).parse().unwrap()),
         Some("fs") => fs_mode(&a(1), &a(2), &a(3), &a(4), a(5).parse().unwrap(), a(6).parse().unwrap(), &a(7)),
         _ => json!({"error": "usage: vh stdlibx table|replay|random|stdin|fs ..."}),
     }
